@@ -3,7 +3,7 @@ from ..core import quiet_stderr
 from ..drivers import fs_drv
 from . import fs_common as fc
 
-PREFIXES = ("C09-", "pub-")
+PREFIXES = ("C09-", "pub-", "C02-accepted-samples-unreadable-after-clean-close")     # "once the writer is closed the reader sees everything"
 
 
 def run(ctx):
